@@ -15,6 +15,7 @@ from hypergraph.viz._common import (
     build_param_to_consumer_map,
     is_descendant_of,
     is_node_visible,
+    nearest_visible,
 )
 from hypergraph.viz.renderer.nodes import (
     build_input_groups,
@@ -165,6 +166,9 @@ def add_merged_output_edges(
 
             if is_source_container and is_source_expanded and value_name:
                 internal_producer = output_to_producer.get(value_name)
+                if internal_producer:
+                    # The deepest producer may sit inside a collapsed inner container
+                    internal_producer = nearest_visible(internal_producer, flat_graph, expansion_state)
                 if internal_producer and internal_producer != source and is_descendant_of(internal_producer, source, flat_graph):
                     actual_source = internal_producer
                 else:
@@ -287,7 +291,8 @@ def add_separate_output_edges(
                         continue
 
                 if is_source_container and is_source_expanded:
-                    actual_producer = output_to_producer.get(value_name, source)
+                    # The deepest producer may sit inside a collapsed inner container
+                    actual_producer = nearest_visible(output_to_producer.get(value_name, source), flat_graph, expansion_state)
                     data_value = value_name
                     if actual_producer == source:
                         internal_producer = find_internal_producer_for_output(source, value_name, flat_graph, expansion_state)
